@@ -327,13 +327,18 @@ func (d *driver) runFaultWorld(c cfg, steps, idx int, noRetry bool) {
 		case applied == -1:
 			run.Inconclusive(fmt.Sprintf("fault world: the counters changed by something that is no repetition of the call (%s)", key))
 			return false
+		case applied >= 2 && isAdd:
+			// an addition applied twice breaks none of the statement's clauses (ItemMinCount may only over-report): counted,
+			// not judged; the reference multiset follows the server so that later clauses stay exact
+			run.Observe("fault_world_additions_applied_more_than_once_not_judged", 1)
+			bump(keys, applied-count)
 		case applied >= 2:
 			run.Observe("fault_world_calls_applied_more_than_once", 1)
 			run.Violation("call-applied-more-than-once", key, witness)
 			clauses(keys[:min(len(keys), 12)], "after "+shape) // what the caller sees of it
 			return false
 		}
-		if err == nil {
+		if err == nil && applied <= 1 {
 			run.Observe("fault_world_calls_applied_"+[]string{"zero_times_reported_nil", "once"}[applied], 1)
 		}
 		// the statement's clauses right after the call: its own items and some of the others
